@@ -191,6 +191,17 @@ pub fn run_c04(ctx: &Ctx) {
         ">= 2 workers and more dispatches than workers; here a worker is killed, replaced and rejoins with a limit that never constrains (64): two consecutive connections go to two different workers whenever the rotation held at least two handles at the first and no handle was removed in between (pair rule, evaluated across the moment the replacement rejoins)");
     run_l2_part(ctx, "l2-skipping", Prop::C04, P_C04_SAT, ctx.tier.scale(120_000, 10), &[("dispatches>W", 0.4), ("saturated", 0.5)],
         ">= 2 workers and more dispatches than workers; with a stable set S of saturated workers the others are served round-robin and S receives nothing");
+    // (b') the worker's side of "a saturated worker receives nothing until it has released a
+    // connection": the real ServerWorker at limits 1..3 (readiness flaps and restarts at the limit)
+    {
+        ctx.run_corpus::<crate::l3::Case>("l3", |c| crate::l3::run_case(c, crate::l3::Prop::C04));
+        let rule = format!("{RULE_L3}; here: limits 1..3, 1..2 services, readiness failures and pending phases while the worker is at its limit; oracle: the worker receives a connection only while it holds fewer than max_concurrent_connections (whatever the worker tells the accept loop about itself); non-trivial = some dispatch brought the worker to its limit");
+        ctx.run_random(
+            Part::new("l3", &rule, ctx.tier.scale(30_000, 10)).floors(&[("dispatch-reaches-limit", 0.4), ("restart", 0.1), ("readiness-pending", 0.05)]).shrink_iters(4000),
+            l3gen::c02_strategy,
+            |c| crate::l3::run_case(c, crate::l3::Prop::C04),
+        );
+    }
     // (c) end-to-end: worker threads seen by the service calls of a real server
     {
         use crate::l4;
@@ -202,6 +213,7 @@ pub fn run_c04(ctx: &Ctx) {
 
 pub fn replay_c04(ctx: &Ctx, v: &Value) -> i32 {
     match v["part"].as_str().unwrap_or("") {
+        p if p.starts_with("l3") => ctx.replay::<crate::l3::Case>(v, |c| crate::l3::run_case(c, crate::l3::Prop::C04)),
         p if p.starts_with("l4") => replay_l4(ctx, v, crate::l4::Prop::C04),
         p if p.starts_with("availability") => ctx.replay::<AvailCase>(v, check_avail),
         _ => replay_l2(ctx, v, Prop::C04),
@@ -340,7 +352,7 @@ pub mod l3gen {
     pub fn c06_strategy() -> impl Strategy<Value = Case> {
         let ms = prop_oneof![3 => prop::sample::select(vec![0u32, 1, 250, 500, 999, 1000, 1001, 1500, 2000, 2999, 3000, 5000]), 1 => 0u32..6000];
         let pre = prop::collection::vec(
-            prop_oneof![4 => sel().prop_map(|l| Op::Dispatch { l }), 4 => Just(Op::Poll), 1 => sel().prop_map(|k| Op::FinishConn { k })],
+            prop_oneof![4 => sel().prop_map(|l| Op::Dispatch { l }), 4 => Just(Op::Poll), 1 => sel().prop_map(|k| Op::FinishConn { k }), 1 => sel().prop_map(|s| Op::MakePending { s }), 1 => sel().prop_map(|s| Op::MakeReady { s })],
             0..8,
         );
         let post = prop::collection::vec(
@@ -457,9 +469,30 @@ pub fn run_c09(ctx: &Ctx) {
         rt::gen::c09,
         rt::check_c09,
     );
+    run_c09_fresh(ctx);
+}
+
+fn run_c09_fresh(ctx: &Ctx) {
+    use crate::rt;
+    let cases = rt::fresh_process_cases();
+    let total = cases.len() as u64;
+    ctx.run_enum(
+        Part::new("fresh-process", "every configuration of 1..3 arbiters, each idle / stopped and joined before the system stop / detached, with the stop issued by a system task or a foreign thread, each in a process of its own (the check binary re-executes itself) so that System and Arbiter ids start at zero; same oracle as part threads; non-trivial = at least two arbiters one of which ended before the stop", total),
+        |shard, n, f: &mut dyn FnMut(&rt::C09Case) -> bool| {
+            for (i, c) in cases.iter().enumerate() {
+                if i % n == shard && !f(c) {
+                    return;
+                }
+            }
+        },
+        rt::check_c09_fresh_process,
+    );
 }
 
 pub fn replay_c09(ctx: &Ctx, v: &Value) -> i32 {
+    if v["part"].as_str().unwrap_or("").starts_with("fresh-process") {
+        return ctx.replay::<crate::rt::C09Case>(v, crate::rt::check_c09_fresh_process);
+    }
     ctx.replay::<crate::rt::C09Case>(v, crate::rt::check_c09)
 }
 
